@@ -33,8 +33,12 @@ type Plan struct {
 	ListenerChaos bool   `json:"listenerChaos"`      // listener attempts structural calls inside removal events
 	Dispatch      []Sub  `json:"dispatch,omitempty"` // Dispatch members
 	Wide          string `json:"wide,omitempty"`
-	FreshTwin     bool   `json:"freshTwin,omitempty"` // C15: lock-step fresh world after each Reset
-	LoadTwin      bool   `json:"loadTwin,omitempty"`  // C17: lock-step loaded world after dump/load
+	Fat           bool   `json:"fat,omitempty"`         // 18-30 live types, creations carry most of them (entities with > 16 components)
+	HugeComp      bool   `json:"hugeComp,omitempty"`    // one component type of 4 KiB - 70 KiB
+	ManySubs      bool   `json:"manySubs,omitempty"`    // Dispatch with more than 64 members
+	ListenerRes   bool   `json:"listenerRes,omitempty"` // the listener object is also stored as a resource
+	FreshTwin     bool   `json:"freshTwin,omitempty"`   // C15: lock-step fresh world after each Reset
+	LoadTwin      bool   `json:"loadTwin,omitempty"`    // C17: lock-step loaded world after dump/load
 	EventReplica  bool   `json:"eventReplica,omitempty"`
 }
 
@@ -97,6 +101,10 @@ func GenPlan(profile string, seed uint64, thorough bool) *Plan {
 
 	// component types
 	nLive := 3 + r.Intn(10)
+	if r.Intn(16) == 0 && profile != "C14" {
+		p.Fat = true
+		nLive = 18 + r.Intn(13)
+	}
 	maxID := ecs.MaskTotalBits - 1
 	nRel := 1 + r.Intn(3)
 	usedArr := map[int]bool{}
@@ -189,7 +197,8 @@ func GenPlan(profile string, seed uint64, thorough bool) *Plan {
 	if r.Intn(10) == 0 {
 		p.Wide = []string{"nodes", "tables", "entities", "filters"}[r.Intn(4)]
 	}
-	if ((profile == "C03" || profile == "C06" || profile == "C15") && r.Intn(7) == 0) || (profile == "C13" && r.Intn(6) == 0) {
+	if ((profile == "C03" || profile == "C06" || profile == "C15") && r.Intn(7) == 0) || (profile == "C13" && r.Intn(6) == 0) ||
+		((profile == "C05" || profile == "C07" || profile == "C08" || profile == "C11") && r.Intn(12) == 0) {
 		p.Wide = "tables" // more than one page (32) of target tables in one relation node
 	}
 	// big worlds: the library's default capacity increment, hundreds to thousands of entities, batch creations of
@@ -198,7 +207,17 @@ func GenPlan(profile string, seed uint64, thorough bool) *Plan {
 		p.Wide = "big"
 		k := 1 + r.Intn(len(p.Types)-1)
 		if p.Types[k].Kind == "bytes" || p.Types[k].Kind == "rel" {
-			p.Types[k].Size = []int{200, 1000, 4097, 9000}[r.Intn(4)]
+			p.Types[k].Size = []int{100, 200, 600}[r.Intn(3)]
+		}
+	}
+	if p.Wide == "" && profile != "C14" && r.Intn(20) == 0 {
+		// one very large component (beyond any block size an implementation might clear or copy in); small world
+		for k := range p.Types {
+			if kd := p.Types[k].Kind; (kd == "bytes" || kd == "rel") && r.Intn(2) == 0 {
+				p.Types[k].Size = []int{4097, 9000, 16385, 20000, 24000, 40000, 70000}[r.Intn(7)]
+				p.HugeComp = true
+				break
+			}
 		}
 	}
 	if p.Wide == "tables" && len(p.Types) > 2 {
@@ -233,6 +252,11 @@ func GenPlan(profile string, seed uint64, thorough bool) *Plan {
 			p.Weights["xchg"] = 6
 			p.EntityCap = 160 + r.Intn(60)
 			p.Steps += 450
+			if r.Intn(3) == 0 { // beyond 128 target tables in one node
+				p.EntityCap = 320 + r.Intn(120)
+				p.Steps += 350
+				p.FullEvery = 8
+			}
 		case "nodes":
 			p.Weights["xchg"] = 40
 			p.Steps += 100
@@ -242,15 +266,34 @@ func GenPlan(profile string, seed uint64, thorough bool) *Plan {
 			if thorough && r.Intn(3) == 0 {
 				p.EntityCap = 1500 + r.Intn(2500)
 			}
+
 			p.Weights["new"] += 10
 			p.Weights["newbatch"] = 25
 			p.Weights["batch"] += 6
 			p.Weights["reset"] = 0
-			if p.Profile == "C15" || p.Profile == "C02" {
+			if p.Profile == "C15" || p.Profile == "C02" || p.Profile == "C06" || p.Profile == "C17" {
 				p.Weights["reset"] = 1
 			}
 			p.FullEvery = 6
 			p.Steps = 150 + r.Intn(150)
+			if r.Intn(map[bool]int{false: 6, true: 5}[thorough]) == 0 { // more than 4096 rows in one table
+				p.EntityCap = 5000 + r.Intn(4000)
+				p.FullEvery = 12
+			}
+		}
+	}
+	if p.Listener != "none" && !p.FillToLimit && r.Intn(6) == 0 {
+		p.ListenerRes = true
+		if p.ResTypes < 6 {
+			p.ResTypes = 6
+		}
+	}
+	if p.HugeComp {
+		if p.EntityCap > 50 {
+			p.EntityCap = 10 + r.Intn(40)
+		}
+		if p.CapInc > 16 {
+			p.CapInc = 1 + r.Intn(8)
 		}
 	}
 	return p
@@ -359,6 +402,10 @@ func tuneProfile(p *Plan, r *Rng, thorough bool) {
 		p.ListenerS = uint8(r.Intn(64))
 		p.ListenerC = drawC()
 		nd := 1 + r.Intn(5)
+		if r.Intn(12) == 0 {
+			nd = 60 + r.Intn(30) // more members than one machine word has bits
+			p.ManySubs = true
+		}
 		for i := 0; i < nd; i++ {
 			sub := Sub{S: uint8(r.Intn(64)), C: drawC()}
 			if r.Intn(4) == 0 {
